@@ -307,7 +307,8 @@ async def async_setup_entry(hass: HomeAssistant, config_entry: ConfigEntry) -> b
         await install_requirements(hass, config_entry, pyscript_folder)
         await load_scripts(hass, config_entry.data, global_ctx_only=global_ctx_only)
 
-        start_global_contexts(global_ctx_only=global_ctx_only)
+        # also start the scripts and apps that were reloaded because they import the named module
+        start_global_contexts()
 
     hass.services.async_register(DOMAIN, SERVICE_RELOAD, reload_scripts_handler)
 
